@@ -21,6 +21,9 @@ CONDS = [
          'leading dash alone / followed, after "--", after "a-", ...) of an otherwise concrete identifier: id / class / '
          'embedded round trip', '9 shapes x every code point', timeout={'quick': 100, 'thorough': 900},
          parts={'quick': 3, 'thorough': 9}),
+    Cond('position_enum_ok', 'the same shapes, plus two-character strings, for every code point up to U+02FF and 18 boundary code '
+         'points: id / class / embedded / attribute-value round trip (bounded enumeration by symbolic block index)',
+         '786 code points x (9 shapes + 23 short strings) x 4 forms', timeout={'quick': 100, 'thorough': 300}, parts={'quick': 4, 'thorough': 4}),
     Cond('embedded_ok', "'div#' + escape(s) + '.k > p' keeps the surrounding structure", 'len(s) = 1',
          timeout={'quick': 100, 'thorough': 600}, parts={'quick': 2, 'thorough': 7}),
 ]
